@@ -26,10 +26,10 @@ def random_universe(r):
             if k < 0.3:
                 fs.append("s")
             elif k < 0.7:
-                fs.append(f"r{r.randrange(i)}")
+                fs.extend([f"r{r.randrange(i)}"] * r.choice([1, 1, 2, 3]))
             else:
                 ms = r.sample(range(i), r.randrange(1, i + 1))
-                fs.append("u" + "+".join(map(str, ms)))
+                fs.extend(["u" + "+".join(map(str, ms))] * r.choice([1, 1, 1, 2]))
         u.append(fs)
     return u
 
@@ -41,22 +41,52 @@ def univ_word(u):
 class Classes:
     """the real classes of a universe"""
 
-    def __init__(self, xo, u, tag):
-        self.u, self.cls, self.names = u, [], []
+    def __init__(self, xo, u, tag, arrays=False):
+        """arrays: a run of identical reference fields becomes ONE field holding a static array of references (`Ref[C][n]`,
+        `U[n]`) - byte for byte the same layout, but read and written through array.py"""
+        self.u, self.cls, self.names, self.where = u, [], [], []
         meta_s, meta_u = type(xo.Struct), type(xo.UnionRef)
         for i, fs in enumerate(u):
-            d = {}
-            for k, f in enumerate(fs):
+            d, where, k = {}, {}, 0
+            while k < len(fs):
+                f = fs[k]
                 if f == "s":
                     d[f"f{k}"] = xo.Int64
-                elif f[0] == "r":
-                    d[f"f{k}"] = xo.Ref[self.cls[int(f[1:])]]
+                    where[k] = (f"f{k}", None)
+                    k += 1
+                    continue
+                if f[0] == "r":
+                    t = xo.Ref[self.cls[int(f[1:])]]
                 else:
                     ms = [int(x) for x in f[1:].split("+")]
-                    d[f"f{k}"] = meta_u(f"Rg{tag}U{i}x{k}", (xo.UnionRef,), {"_reftypes": [self.cls[m] for m in ms]})
+                    t = meta_u(f"Rg{tag}U{i}x{k}", (xo.UnionRef,), {"_reftypes": [self.cls[m] for m in ms]})
+                n = 1
+                while arrays and k + n < len(fs) and fs[k + n] == f:
+                    n += 1
+                if n > 1:
+                    d[f"f{k}"] = t[n]
+                    for j in range(n):
+                        where[k + j] = (f"f{k}", j)
+                else:
+                    d[f"f{k}"] = t
+                    where[k] = (f"f{k}", None)
+                k += n
             name = f"Rg{tag}N{i}"
             self.names.append(name)
+            self.where.append(where)
             self.cls.append(meta_s(name, (xo.Struct,), d))
+
+    def get(self, o, ci, k):
+        name, j = self.where[ci][k]
+        v = getattr(o, name)
+        return v if j is None else v[j]
+
+    def set(self, o, ci, k, val):
+        name, j = self.where[ci][k]
+        if j is None:
+            setattr(o, name, val)
+        else:
+            getattr(o, name)[j] = val
 
     def size(self, i):
         return sum(16 if f[0] == "u" else 8 for f in self.u[i])
@@ -72,7 +102,7 @@ class Classes:
 class CaseRun:
     def __init__(self, xo, cfg, u, tag):
         self.xo, self.cfg, self.u = xo, cfg, u
-        self.C = Classes(xo, u, tag)
+        self.C = Classes(xo, u, tag, arrays=bool(cfg.get("arrays")))
         self.lines, self.expect, self.fail, self.tags = [], [], [], collections.Counter()
         self.ops_done = []
         self.handles = []          # (object, class index) in creation order
@@ -92,7 +122,7 @@ class CaseRun:
             for k, f in enumerate(self.u[ci]):
                 if f == "s":
                     continue
-                v = getattr(o, f"f{k}")
+                v = self.C.get(o, ci, k)
                 idx = 0
                 if f[0] == "u":
                     idx = int(self.xo.Int64._from_buffer(self.b, o._offset + self.C.foff(ci, k) + 8))
@@ -115,7 +145,7 @@ class CaseRun:
                     continue
                 slot = o._offset + self.C.foff(ci, k)
                 rel = struct.unpack_from("<q", mem, slot)[0]
-                v = getattr(o, f"f{k}")
+                v = self.C.get(o, ci, k)
                 if rel == NULL:
                     if v is not None:
                         self.failure("null-not-none", f"{what}: null slot {slot} reads {v!r}")
@@ -185,24 +215,24 @@ class CaseRun:
                 self.check_fresh(o._offset, self.C.size(ci), before, what)
             elif kind == "bindobj":
                 _, hi, k, ti = op
-                h, t = self.handles[hi][0], self.handles[ti][0]
+                (h, hci), t = self.handles[hi], self.handles[ti][0]
                 cap, chunks = self.b.capacity, [(c.start, c.end) for c in self.b.chunks]
                 self.emit(f"bindobj {h._offset} {k} {t._offset}")
-                setattr(h, f"f{k}", t)
+                self.C.set(h, hci, k, t)
                 self.expect.append("ok " + self.state_line())
-                got = getattr(h, f"f{k}")
+                got = self.C.get(h, hci, k)
                 if got is None or got._offset != t._offset or got._buffer is not self.b:
                     self.failure("alias-not-same-object", f"{what}: bound node at {t._offset}, the reference reads {got!r}")
                 if (cap, chunks) != (self.b.capacity, [(c.start, c.end) for c in self.b.chunks]):
                     self.failure("alias-allocated", f"{what}: binding an object of the same buffer allocated")
             elif kind == "bindnull":
                 _, hi, k = op
-                h = self.handles[hi][0]
+                h, hci = self.handles[hi]
                 self.emit(f"bindnull {h._offset} {k}")
-                setattr(h, f"f{k}", None)
+                self.C.set(h, hci, k, None)
                 self.expect.append("ok " + self.state_line())
-                if getattr(h, f"f{k}") is not None:
-                    self.failure("null-not-none", f"{what}: reads {getattr(h, 'f%d' % k)!r}")
+                if self.C.get(h, hci, k) is not None:
+                    self.failure("null-not-none", f"{what}: reads {self.C.get(h, hci, k)!r}")
             elif kind == "bindval":
                 _, hi, k, ci, vs, variant = op
                 h, hci = self.handles[hi]
@@ -214,8 +244,8 @@ class CaseRun:
                     val = (self.C.names[ci], self.kw(ci, vs))
                 else:
                     val = self.kw(ci, vs)
-                setattr(h, f"f{k}", val)
-                n = getattr(h, f"f{k}")
+                self.C.set(h, hci, k, val)
+                n = self.C.get(h, hci, k)
                 if n is None:
                     self.failure("value-bound-null", f"{what}: reads None")
                     self.expect.append("ok ?")
@@ -236,15 +266,15 @@ class CaseRun:
                 self.expect.append("ok " + self.state_line())
             elif kind == "setvia":
                 _, hi, k, j, v = op
-                h = self.handles[hi][0]
+                h, hci = self.handles[hi]
                 self.emit(f"setvia {h._offset} {k} {j} {v}")
-                t = getattr(h, f"f{k}")
+                t = self.C.get(h, hci, k)
                 setattr(t, f"f{j}", v)
                 self.expect.append("ok " + self.state_line())
                 for (o, ci) in self.handles:
                     if o._offset == t._offset and int(getattr(o, f"f{j}")) != v:
                         self.failure("write-through-ref-not-visible", f"{what}: the original handle reads {getattr(o, 'f%d' % j)}")
-                if int(getattr(getattr(h, f"f{k}"), f"f{j}")) != v:
+                if int(getattr(self.C.get(h, hci, k), f"f{j}")) != v:
                     self.failure("write-through-ref-lost", f"{what}: the reference reads another value")
             elif kind == "copy":
                 _, hi = op
@@ -256,7 +286,7 @@ class CaseRun:
                 self.expect.append(f"obj {n._offset} " + self.state_line())
                 self.check_fresh(n._offset, self.C.size(ci), before, what)
                 for k, f in enumerate(self.u[ci]):
-                    a, b = getattr(h, f"f{k}"), getattr(n, f"f{k}")
+                    a, b = self.C.get(h, ci, k), self.C.get(n, ci, k)
                     if f == "s":
                         if int(a) != int(b):
                             self.failure("copy-scalar", f"{what}: field {k} reads {b}, the source {a}", prop="C09")
@@ -274,7 +304,7 @@ class CaseRun:
                 if (cap, chunks) != (self.b.capacity, [(c.start, c.end) for c in self.b.chunks]):
                     self.failure("update-allocated", f"{what}: updating a node from a node of the same buffer allocated")
                 for k, f in enumerate(self.u[ci]):
-                    a, b = getattr(t, f"f{k}"), getattr(h, f"f{k}")
+                    a, b = self.C.get(t, ci, k), self.C.get(h, ci, k)
                     if f == "s":
                         if int(a) != int(b):
                             self.failure("update-scalar", f"{what}: field {k} reads {b}, the source {a}", prop="C10")
@@ -336,7 +366,7 @@ class CaseRun:
         if choice == "setvia":
             cands = []
             for hi, k in refslots:
-                t = getattr(hs[hi][0], f"f{k}")
+                t = self.C.get(hs[hi][0], hs[hi][1], k)
                 if t is not None:
                     ci = self.C.names.index(type(t).__name__)
                     for j, f in enumerate(self.u[ci]):
@@ -374,7 +404,7 @@ class CaseRun:
                 continue
             if op[0] == "bindobj" and op[3] >= len(self.handles):
                 continue
-            if op[0] == "setvia" and getattr(self.handles[op[1]][0], f"f{op[2]}") is None:
+            if op[0] == "setvia" and self.C.get(self.handles[op[1]][0], self.handles[op[1]][1], op[2]) is None:
                 continue
             if not self.step(op):
                 break
@@ -383,7 +413,8 @@ class CaseRun:
 
 def random_cfg(r):
     return {"kind": r.choice(alloc.KINDS), "cap": r.choice([0, 8, 16, 64, 64, 200, 1000]),
-            "align": r.choice([1, 2, 8, 8, 16, 64]), "grow_step": r.choice([None, None, 1, 24, 64, 1000])}
+            "align": r.choice([1, 2, 8, 8, 16, 64]), "grow_step": r.choice([None, None, 1, 24, 64, 1000]),
+            "arrays": r.random() < 0.5}
 
 
 def corpus_cases():
@@ -399,6 +430,11 @@ def corpus_cases():
         ({"kind": "bytearray", "cap": 32, "align": 1, "grow_step": 24}, u,
          [("new", 1, [1]), ("new", 0, [2, 3]), ("bindobj", 0, 1, 1), ("bindval", 0, 1, 0, [], "plain"), ("alloc", 0, False),
           ("new", 2, []), ("bindobj", 3, 0, 0), ("bindobj", 3, 2, 0), ("setvia", 3, 0, 0, 2 ** 62 + 5), ("copy", 3), ("bindnull", 3, 2), ("copy", 3)]),
+        # runs of identical reference fields held as static arrays of references
+        ({"kind": "numpy", "cap": 16, "align": 8, "grow_step": None, "arrays": True}, [["s"], ["r0", "r0", "r0", "u0", "u0", "s"]],
+         [("new", 0, [5]), ("new", 1, [9]), ("bindobj", 1, 1, 0), ("bindobj", 1, 4, 0), ("bindval", 1, 2, 0, [7], "plain"),
+          ("bindval", 1, 3, 0, [8], "foreign"), ("copy", 1), ("bindnull", 1, 1), ("bindnull", 1, 4), ("upd", 4, 1),
+          ("setvia", 4, 2, 0, 99), ("upd", 1, 4), ("alloc", 300, True), ("setvia", 1, 3, 0, 98)]),
         # capacity 0, members listed in reverse order
         ({"kind": "numpy", "cap": 0, "align": 64, "grow_step": 1}, [["s"], ["s", "s"], ["u1+0", "u0"]],
          [("new", 2, []), ("new", 0, [8]), ("new", 1, [1, 2]), ("bindobj", 0, 0, 1), ("bindobj", 0, 1, 1), ("bindobj", 0, 0, 2),
@@ -429,6 +465,7 @@ def run_all(tier, seed, n=None):
     mismatches, failures, tags, distinct, nlines = [], [], collections.Counter(), set(), 0
     for c, got in zip(runs, answers):
         tags.update(c.tags)
+        tags["cases.reference-runs-held-as-static-arrays" if c.cfg.get("arrays") else "cases.reference-fields-only"] += 1
         failures.extend(c.fail)
         nlines += len(c.lines)
         if len(c.ops_done) >= 2:
